@@ -335,3 +335,100 @@ func writePoints(repoRoot, srcRoot, verifRoot string, check bool) int {
 	}
 	return stale
 }
+
+// ---------------- hash contracts ----------------
+
+func writeHashes(repoRoot, srcRoot, verifRoot string, check bool) int {
+	b, err := os.ReadFile(filepath.Join(verifRoot, "contracts", "hash", "mimc.go.tmpl"))
+	if err != nil {
+		return 0
+	}
+	stale := 0
+	dirs, _ := filepath.Glob(filepath.Join(srcRoot, "ecc", "*", "fr", "mimc"))
+	for _, d := range dirs {
+		rel := strings.TrimPrefix(d, srcRoot+"/")
+		dst := filepath.Join(repoRoot, rel, "zz_verif_contracts_mimc.go")
+		curve := strings.Split(rel, "/")[1]
+		par, ok := mimcParams[curve]
+		if !ok {
+			continue
+		}
+		ts := make([]string, par[0])
+		for i := range ts {
+			ts[i] = "t"
+		}
+		txt := strings.ReplaceAll(string(b), "EXPPROD", strings.Join(ts, " "))
+		txt = strings.ReplaceAll(txt, "ROUNDS", fmt.Sprint(par[1]))
+		b := []byte(txt)
+		if check {
+			cur, _ := os.ReadFile(dst)
+			if string(cur) != string(b) {
+				fmt.Println("stale:", dst)
+				stale++
+			}
+			continue
+		}
+		os.MkdirAll(filepath.Dir(dst), 0o755)
+		os.WriteFile(dst, b, 0o644)
+		fmt.Println("wrote", dst)
+	}
+	return stale
+}
+
+// documented MiMC instances of the library: (exponent d of the round function x^d, number of rounds)
+var mimcParams = map[string][2]int{
+	"bn254": {5, 110}, "bls12-381": {5, 111}, "bls12-377": {17, 62}, "bls24-315": {5, 109},
+	"bls24-317": {7, 91}, "bw6-633": {5, 136}, "bw6-761": {5, 163}, "grumpkin": {5, 110},
+}
+
+func writePoseidon(repoRoot, srcRoot, verifRoot string, check bool) int {
+	b, err := os.ReadFile(filepath.Join(verifRoot, "contracts", "hash", "poseidon2.go.tmpl"))
+	if err != nil {
+		return 0
+	}
+	stale := 0
+	dirs, _ := filepath.Glob(filepath.Join(srcRoot, "ecc", "*", "fr", "poseidon2"))
+	for _, d := range dirs {
+		rel := strings.TrimPrefix(d, srcRoot+"/")
+		curve := strings.Split(rel, "/")[1]
+		par, ok := mimcParams[curve]
+		if !ok {
+			continue
+		}
+		txt := []byte(strings.ReplaceAll(string(b), "SBOXDEG", fmt.Sprint(par[0])))
+		dst := filepath.Join(repoRoot, rel, "zz_verif_contracts_poseidon2.go")
+		if check {
+			cur, _ := os.ReadFile(dst)
+			if string(cur) != string(txt) {
+				fmt.Println("stale:", dst)
+				stale++
+			}
+			continue
+		}
+		os.MkdirAll(filepath.Dir(dst), 0o755)
+		os.WriteFile(dst, txt, 0o644)
+		fmt.Println("wrote", dst)
+	}
+	return stale
+}
+
+func poseidonPkgs(srcRoot string) []string {
+	dirs, _ := filepath.Glob(filepath.Join(srcRoot, "ecc", "*", "fr", "poseidon2"))
+	var out []string
+	for _, d := range dirs {
+		rel := strings.TrimPrefix(d, srcRoot+"/")
+		if _, ok := mimcParams[strings.Split(rel, "/")[1]]; ok {
+			out = append(out, "./"+rel)
+		}
+	}
+	return out
+}
+
+func mimcPkgs(srcRoot string) []string {
+	dirs, _ := filepath.Glob(filepath.Join(srcRoot, "ecc", "*", "fr", "mimc"))
+	var out []string
+	for _, d := range dirs {
+		out = append(out, "./"+strings.TrimPrefix(d, srcRoot+"/"))
+	}
+	return out
+}
